@@ -1,12 +1,9 @@
-(* Proofs about the composed re-observation loop (model/ReobsLoop.v), extension X7.
-   Part 0: the hops are the wiring of node.go.   Part 1: every history of the composition projects onto a history of each
-   component (so every theorem of C02 / C03 / C14 / C17 holds of the component inside the loop).   Part 2: time.
-   Part 3: the dispatcher under an arbitrary request stream (forward again after a purge, timed).   Part 4: the retry stream
-   of one pending entry.   Part 5: the loop theorems (cadence, no amplification, safety, budget, recovery). *)
+(* Proofs about the composed re-observation loop that need the processor proofs (C14 / C02): the retry stream of a pending message,
+   the cadence theorem, budget, recovery.  The dispatcher / structure half is proofs/ReobsLoopBase.v. *)
 From Coq Require Import List ZArith Lia Bool Arith.
 From Coq Require Import Strings.Byte.
 From WH Require Import lib.Bytes gen.Extracted gen.ExtractedWiring gen.ExtractedP2P model.Vaa model.Processor model.ReobsLoop.
-From WH Require Import proofs.ProcessorProofs proofs.ProcCleanupProofs.
+From WH Require Import proofs.ProcessorProofs proofs.ProcCleanupProofs proofs.ReobsLoopBase.
 From WH Require proofs.ReobserveProofs proofs.P2PVerifyProofs.
 Import ListNotations.
 Open Scope Z_scope.
@@ -14,213 +11,14 @@ Open Scope Z_scope.
 Module RP := ReobserveProofs.
 Module GP := P2PVerifyProofs.
 
-(* ================================================================== Part 0: hops and numbers *)
-Lemma hops_match : loop_hops = extracted_hops.
-Proof. reflexivity. Qed.
-Lemma watched_chains_are : watched_chains = [2; 4; 255].
-Proof. reflexivity. Qed.
-Lemma node_queues_known c : In c watched_chains -> R.find_queue node_queues c <> None.
-Proof. intros [<-|[<-|[<-|[]]]]; discriminate. Qed.
 Lemma loop_bound_value : loop_bound = 1410 * 10 ^ 9.      (* 23 min 30 s *)
 Proof. reflexivity. Qed.
-
-(* ================================================================== Part 1: projections *)
-Lemma R_run_app : forall a st b, R.run st (a ++ b) = R.run st a ++ R.run (R.final st a) b.
-Proof. induction a as [|o a IH]; intros st b; [reflexivity|]. cbn [app]. rewrite !RP.run_cons, IH. reflexivity. Qed.
-Lemma R_final_app : forall a st b, R.final st (a ++ b) = R.final (R.final st a) b.
-Proof. induction a as [|o a IH]; intros st b; [reflexivity|]. cbn [app R.final]. apply IH. Qed.
-
-Definition dops (tr : list tev) : list R.op := map (fun x => snd (fst x)) (disp_of tr).
-Definition pops (tr : list tev) : list op := map fst (proc_of tr).
-
-Lemma disp_of_app a b : disp_of (a ++ b) = disp_of a ++ disp_of b.
-Proof. unfold disp_of. apply flat_map_app. Qed.
-Lemma proc_of_app a b : proc_of (a ++ b) = proc_of a ++ proc_of b.
-Proof. unfold proc_of. apply flat_map_app. Qed.
-Lemma dops_app a b : dops (a ++ b) = dops a ++ dops b.
-Proof. unfold dops. rewrite disp_of_app, map_app. reflexivity. Qed.
-Lemma pops_app a b : pops (a ++ b) = pops a ++ pops b.
-Proof. unfold pops. rewrite proc_of_app, map_app. reflexivity. Qed.
-
-Section Loop.
-Variable recover : bytes -> bytes -> option bytes.
-Variable keccak : bytes -> bytes.
-Variable sign : bytes -> bytes.
-Variable own : addr.
-Variable gov_chain : Z.
-Variable gov_addr : bytes.
-Variable decode_hb : bytes -> option Z.
-Variable decodeq : bytes -> option R.req.
-Variable encq : R.req -> bytes.
-Variable self : G.peerid.
-Variable disable : bool.
-Variable watch : Z -> R.req -> Z -> list msgpub.
-
-Notation pstep := (ReobsLoop.pstep recover keccak sign own gov_chain gov_addr).
-Notation prun := (Processor.run recover keccak sign own gov_chain gov_addr).
-Notation gstep := (ReobsLoop.gstep recover keccak decode_hb decodeq self disable).
-Notation feed := (ReobsLoop.feed recover keccak sign own gov_chain gov_addr).
-Notation lstep := (ReobsLoop.lstep recover keccak sign own gov_chain gov_addr decode_hb decodeq encq self disable watch).
-Notation lrun := (ReobsLoop.lrun recover keccak sign own gov_chain gov_addr decode_hb decodeq encq self disable watch).
-Notation lstates := (ReobsLoop.lstates recover keccak sign own gov_chain gov_addr decode_hb decodeq encq self disable watch).
-
-Lemma prun_app : forall a st b, prun st (a ++ b) = let '(s1, o1) := prun st a in let '(s2, o2) := prun s1 b in (s2, o1 ++ o2).
-Proof.
-  induction a as [|o a IH]; intros st b; cbn [app Processor.run]; [destruct (prun st b); reflexivity|].
-  destruct (Processor.step _ _ _ _ _ _ st o) as [st1 out1]. rewrite IH. destruct (prun st1 a) as [s1 o1]. destruct (prun s1 b) as [s2 o2]. reflexivity.
-Qed.
-
-(* the dispatcher events of a trace are a run of the dispatcher model, the processor events a run of the processor model *)
-Definition dwf (s : R.state) (tr : list tev) (s' : R.state) : Prop := disp_of tr = R.run s (dops tr) /\ s' = R.final s (dops tr).
-Definition pwf (p : pstate) (tr : list tev) (p' : pstate) : Prop := prun p (pops tr) = (p', map snd (proc_of tr)).
-(* the parts of the node a step leaves alone *)
-Definition same_but_proc (a b : lnode) : Prop := l_p2p a = l_p2p b /\ l_disp a = l_disp b /\ l_sendq a = l_sendq b /\ l_now a = l_now b.
-
-Lemma dwf_app s tr1 s1 tr2 s2 : dwf s tr1 s1 -> dwf s1 tr2 s2 -> dwf s (tr1 ++ tr2) s2.
-Proof.
-  intros [A1 A2] [B1 B2]. unfold dwf. rewrite disp_of_app, dops_app, R_run_app, R_final_app, <- A2, <- A1, <- B1. auto.
-Qed.
-Lemma pwf_app p tr1 p1 tr2 p2 : pwf p tr1 p1 -> pwf p1 tr2 p2 -> pwf p (tr1 ++ tr2) p2.
-Proof.
-  unfold pwf. intros A B. rewrite pops_app, prun_app, A, B, proc_of_app, map_app. reflexivity.
-Qed.
-Lemma dwf_none s tr : disp_of tr = [] -> dwf s tr s.
-Proof. intros E. unfold dwf, dops. rewrite E. split; reflexivity. Qed.
-Lemma pwf_none p tr : proc_of tr = [] -> pwf p tr p.
-Proof. intros E. unfold pwf, pops. rewrite E. reflexivity. Qed.
-
-(* ---- feed *)
-Lemma feed_spec : forall os st, let r := feed st os in
-  same_but_proc st (fst r) /\ pwf (l_proc st) (snd r) (l_proc (fst r)) /\ disp_of (snd r) = [] /\
-  Forall (fun e => fst e = l_now st /\ exists o outs, snd e = EProc o outs) (snd r) /\ pops (snd r) = os.
-Proof.
-  induction os as [|o os IH]; intros st; cbv zeta; cbn [ReobsLoop.feed].
-  - cbn. repeat split; constructor.
-  - unfold ReobsLoop.pstep. destruct (Processor.step _ _ _ _ _ _ (l_proc st) o) as [p' outs] eqn:Es.
-    specialize (IH (with_proc st p')). destruct (feed (with_proc st p') os) as [st' evs]. cbn [fst snd] in *.
-    destruct IH as ((I1 & I2 & I3 & I4) & Ip & Id & If & Io). cbn [with_proc l_p2p l_disp l_sendq l_now l_proc] in *.
-    split; [repeat split; assumption|]. split; [|split; [exact Id|split]].
-    + unfold pwf in *. cbn [pops proc_of flat_map snd app map fst Processor.run]. fold (proc_of evs). fold (pops evs).
-      rewrite Es, Ip. reflexivity.
-    + constructor; [split; [reflexivity|do 2 eexists; reflexivity]|exact If].
-    + cbn [pops proc_of flat_map snd app map fst]. fold (proc_of evs). fold (pops evs). rewrite Io. reflexivity.
-Qed.
-
-(* ---- dispatch, dispatch_all *)
-Definition same_but_disp (a b : lnode) : Prop := l_p2p a = l_p2p b /\ l_proc a = l_proc b /\ l_sendq a = l_sendq b /\ l_now a = l_now b.
-
-Lemma dispatch_spec st o : let r := dispatch st o in
-  same_but_disp st (fst r) /\ snd r = [(l_now st, EDisp (l_disp st) o (snd (R.step (l_disp st) o)))] /\
-  l_disp (fst r) = fst (R.step (l_disp st) o).
-Proof.
-  cbv zeta. unfold dispatch. destruct (R.step (l_disp st) o) as [d' x]. cbn. repeat split.
-Qed.
-
-Lemma dwf_one s o t : dwf s [(t, EDisp s o (snd (R.step s o)))] (fst (R.step s o)).
-Proof. unfold dwf, dops. cbn. destruct (R.step s o); split; reflexivity. Qed.
-
-Lemma dispatch_all_spec : forall rs st, let r := dispatch_all st rs in
-  same_but_disp st (fst r) /\ dwf (l_disp st) (snd r) (l_disp (fst r)) /\ proc_of (snd r) = [] /\
-  Forall (fun e => fst e = l_now st /\ exists s q x, snd e = EDisp s (R.Req q (l_now st)) x /\ In q rs) (snd r) /\
-  dops (snd r) = map (fun q => R.Req q (l_now st)) rs.
-Proof.
-  induction rs as [|q rs IH]; intros st; cbv zeta; cbn [ReobsLoop.dispatch_all].
-  - cbn. split; [repeat split|]. split; [apply dwf_none; reflexivity|]. repeat split; constructor.
-  - pose proof (dispatch_spec st (R.Req q (l_now st))) as D. destruct (dispatch st (R.Req q (l_now st))) as [st1 e1]. cbn [fst snd] in D.
-    destruct D as ((D1 & D2 & D3 & D4) & De & Dd). specialize (IH st1). destruct (dispatch_all st1 rs) as [st2 e2]. cbn [fst snd] in *.
-    destruct IH as ((I1 & I2 & I3 & I4) & Iw & Ip & If & Io). rewrite <- D4 in *.
-    split; [repeat split; congruence|]. split; [|split; [|split]].
-    + eapply dwf_app; [|exact Iw]. rewrite De, Dd. apply dwf_one.
-    + rewrite proc_of_app, Ip, De. reflexivity.
-    + apply Forall_app. split.
-      * rewrite De. constructor; [|constructor]. split; [reflexivity|]. do 3 eexists. split; [reflexivity|left; reflexivity].
-      * eapply Forall_impl; [|exact If]. intros e (A & s & q' & x & B & C). split; [exact A|]. exists s, q', x. split; [exact B|right; exact C].
-    + rewrite dops_app, Io, De. reflexivity.
-Qed.
-
-(* ---- post_all *)
-Definition same_but_sendq (a b : lnode) : Prop := l_p2p a = l_p2p b /\ l_proc a = l_proc b /\ l_disp a = l_disp b /\ l_now a = l_now b.
-
-Lemma post_all_spec : forall rs st, let r := post_all st rs in
-  same_but_sendq st (fst r) /\ disp_of (snd r) = [] /\ proc_of (snd r) = [] /\
-  Forall (fun e => fst e = l_now st /\ exists q res, snd e = EPost q res) (snd r).
-Proof.
-  induction rs as [|q rs IH]; intros st; cbv zeta; cbn [ReobsLoop.post_all].
-  - cbn. repeat split; constructor.
-  - destruct (R.post sendq_cap (l_sendq st) q) as [q' res]. specialize (IH (with_sendq st q')).
-    destruct (post_all (with_sendq st q') rs) as [st2 e2]. cbn [fst snd with_sendq l_p2p l_proc l_disp l_now] in *.
-    destruct IH as ((I1 & I2 & I3 & I4) & Id & Ip & If).
-    split; [repeat split; assumption|]. split; [exact Id|]. split; [exact Ip|]. constructor; [split; [reflexivity|do 2 eexists; reflexivity]|exact If].
-Qed.
-
-Ltac simp_fields := cbn [with_p2p with_sendq with_disp with_proc l_disp l_proc l_p2p l_sendq l_now fst snd] in *.
-
-(* ---- one step, a whole history *)
-Lemma lstep_wf st o : let r := lstep st o in
-  dwf (l_disp st) (snd r) (l_disp (fst r)) /\ pwf (l_proc st) (snd r) (l_proc (fst r)).
-Proof.
-  cbv zeta. destruct o as [t| |q| |from m| |c|e]; cbn [ReobsLoop.lstep].
-  - match goal with |- context [feed ?s ?os] => pose proof (feed_spec os s) as F; destruct (feed s os) as [st' evs] end.
-    cbn [fst snd l_disp l_proc] in *. destruct F as ((_ & F2 & _) & Fp & Fd & _). split; [rewrite <- F2; apply dwf_none; exact Fd|exact Fp].
-  - pose proof (feed_spec (cleanup_ops (l_now st)) st) as F. destruct (feed st (cleanup_ops (l_now st))) as [st1 e1]. cbn [fst snd] in F.
-    destruct F as ((_ & F2 & _) & Fp & Fd & _).
-    pose proof (post_all_spec (reqs_of_evs e1) st1) as Q. destruct (post_all st1 (reqs_of_evs e1)) as [st2 e2]. cbn [fst snd] in *.
-    destruct Q as ((_ & Q2 & Q3 & _) & Qd & Qp & _). split.
-    + eapply dwf_app; [rewrite F2; apply dwf_none; exact Fd|rewrite <- Q3; apply dwf_none; exact Qd].
-    + eapply pwf_app; [exact Fp|rewrite <- Q2; apply pwf_none; exact Qp].
-  - pose proof (post_all_spec [q] st) as Q. destruct (post_all st [q]) as [st2 e2]. cbn [fst snd] in *.
-    destruct Q as ((_ & Q2 & Q3 & _) & Qd & Qp & _). split; [rewrite <- Q3; apply dwf_none; exact Qd|rewrite <- Q2; apply pwf_none; exact Qp].
-  - destruct (l_sendq st) as [|q qs]; [cbn; split; [apply dwf_none|apply pwf_none]; reflexivity|].
-    destruct (gstep (l_p2p st) (G.LLocalReq (encq q))) as [g' outs].
-    match goal with |- context [dispatch_all ?s ?rs] => pose proof (dispatch_all_spec rs s) as D; destruct (dispatch_all s rs) as [st1 e1] end.
-    cbn [fst snd with_p2p with_sendq l_disp l_proc] in *. destruct D as ((_ & D2 & _) & Dw & Dp & _). split.
-    + eapply dwf_app; [exact Dw|apply dwf_none; reflexivity].
-    + rewrite <- D2. apply pwf_none. rewrite proc_of_app, Dp. reflexivity.
-  - destruct (gstep (l_p2p st) (G.LRecv from m)) as [g' outs].
-    match goal with |- context [feed ?s ?os] => pose proof (feed_spec os s) as F; destruct (feed s os) as [st1 e1] end.
-    cbn [fst snd with_p2p l_disp l_proc] in F. destruct F as ((_ & F2 & _) & Fp & Fd & _). simp_fields.
-    pose proof (dispatch_all_spec (reqs_of decodeq outs) st1) as D. destruct (dispatch_all st1 (reqs_of decodeq outs)) as [st2 e2]. cbn [fst snd] in *.
-    destruct D as ((_ & D2 & _) & Dw & Dp & _). split.
-    + eapply dwf_app; [rewrite F2; apply dwf_none; exact Fd|exact Dw].
-    + eapply pwf_app; [exact Fp|rewrite <- D2; apply pwf_none; exact Dp].
-  - pose proof (dispatch_spec st (R.Tick (l_now st))) as D. destruct (dispatch st (R.Tick (l_now st))) as [st1 e1]. cbn [fst snd] in *.
-    destruct D as ((_ & D2 & _) & De & Dd). split; [rewrite De, Dd; apply dwf_one|rewrite <- D2; apply pwf_none; rewrite De; reflexivity].
-  - destruct (R.step (l_disp st) (R.Drain c)) as [d' x] eqn:Es.
-    assert (W1 : dwf (l_disp st) [(l_now st, EDisp (l_disp st) (R.Drain c) x)] d').
-    { pose proof (dwf_one (l_disp st) (R.Drain c) (l_now st)) as W. rewrite Es in W. exact W. }
-    destruct x as [c0| | | | | |[r|]]; try (cbn [fst snd with_disp l_disp l_proc]; split; [exact W1|apply pwf_none; reflexivity]).
-    match goal with |- context [feed ?s ?os] => pose proof (feed_spec os s) as F; destruct (feed s os) as [st2 e2] end.
-    cbn [fst snd with_disp l_disp l_proc] in *. destruct F as ((_ & F2 & _) & Fp & Fd & _). split.
-    + change (?a :: ?b :: e2) with ([a] ++ (b :: e2)). eapply dwf_app; [exact W1|]. rewrite <- F2. apply dwf_none. cbn. exact Fd.
-    + change (?a :: ?b :: e2) with ([a; b] ++ e2). eapply pwf_app; [apply pwf_none; reflexivity|exact Fp].
-  - match goal with |- context [feed ?s ?os] => pose proof (feed_spec os s) as F; destruct (feed s os) as [st' evs] end.
-    cbn [fst snd] in *. destruct F as ((_ & F2 & _) & Fp & Fd & _).
-    assert (E1 : l_disp st = l_disp st') by (rewrite <- F2; destruct e; reflexivity).
-    assert (E2 : forall p, pwf (l_proc match e with VSetGS g => with_p2p st (fst (gstep (l_p2p st) (G.LSetGS (keys g)))) | _ => st end) evs p -> pwf (l_proc st) evs p)
-      by (destruct e; intros p Hp; exact Hp).
-    split; [rewrite <- E1; apply dwf_none; exact Fd|apply E2; exact Fp].
-Qed.
-
-Theorem lrun_wf : forall H st, let r := lrun st H in
-  dwf (l_disp st) (snd r) (l_disp (fst r)) /\ pwf (l_proc st) (snd r) (l_proc (fst r)).
-Proof.
-  induction H as [|o H IH]; intros st; cbv zeta; cbn [ReobsLoop.lrun].
-  - cbn. split; [apply dwf_none|apply pwf_none]; reflexivity.
-  - pose proof (lstep_wf st o) as S1. destruct (lstep st o) as [st1 e1]. specialize (IH st1). destruct (lrun st1 H) as [st2 e2]. cbn [fst snd] in *.
-    destruct S1 as [A1 A2], IH as [B1 B2]. split; [eapply dwf_app; eassumption|eapply pwf_app; eassumption].
-Qed.
-End Loop.
 
 (* ================================================================== Part 4a: what a processor step does to the timing fields *)
 From WH Require Import proofs.ProcC02Proofs.
 
 (* the fields of an aggregation entry that only the cleanup tick (and the creation of the entry) writes *)
 Definition tf (e : entry) : Z * Z * option Z * bool := (first_seen e, retries e, last_retry e, settled e).
-
-Lemma lop_eq_cleanup (o : lop) : o = LCleanup \/ o <> LCleanup.
-Proof. destruct o; try (right; discriminate). left; reflexivity. Qed.
-Lemma op_eq_cleanup (o : op) : o = Cleanup \/ o <> Cleanup.
-Proof. destruct o; [right; discriminate..|left; reflexivity]. Qed.
 
 Section ProcTiming.
 Variable recover : bytes -> bytes -> option bytes.
@@ -346,139 +144,7 @@ Proof.
 Qed.
 End ProcTiming.
 
-(* ================================================================== Part 3: the dispatcher under an arbitrary request stream *)
-Section Dispatcher.
-Import RP.
-
-Lemma mono_ge : forall ops t0 o t, mono t0 ops -> In o ops -> op_time o = Some t -> t0 <= t.
-Proof.
-  induction ops as [|o' ops IH]; intros t0 o t Hm Hin Ht; [destruct Hin|]. cbn [mono] in Hm. destruct Hin as [->|Hin].
-  - rewrite Ht in Hm. destruct Hm; assumption.
-  - destruct (op_time o') as [t'|]; [destruct Hm as [L Hm]; specialize (IH _ _ _ Hm Hin Ht); lia|eapply IH; eassumption].
-Qed.
-
-(* the ops of a run are the ops it was given *)
-Lemma run_ops : forall ops st, map (fun x => snd (fst x)) (R.run st ops) = ops.
-Proof. induction ops as [|o ops IH]; intros st; [reflexivity|]. rewrite run_cons. cbn [map fst snd]. rewrite IH. reflexivity. Qed.
-
-Lemma in_run_in_ops st ops s o x : In (s, o, x) (R.run st ops) -> In o ops.
-Proof. intros H. rewrite <- (run_ops ops st). apply in_map_iff. exists (s, o, x). auto. Qed.
-
-(* position and time: in a history with monotone clock readings, what precedes a step is not later, what follows is not earlier *)
-Lemma run_order st t0 ops pre s o x post t : mono t0 ops -> R.run st ops = pre ++ (s, o, x) :: post -> op_time o = Some t ->
-  (forall s' o' x' t', In (s', o', x') pre -> op_time o' = Some t' -> t' <= t) /\
-  (forall s' o' x' t', In (s', o', x') post -> op_time o' = Some t' -> t <= t').
-Proof.
-  intros Hm Hr Ht. destruct (run_split _ _ _ _ _ Hr) as (ops1 & o1 & ops2 & st1 & -> & E1 & _ & Ex & Epost). injection Ex as _ <- _.
-  apply mono_app in Hm as (t1 & _ & Hm & Hb). cbn [mono] in Hm. rewrite Ht in Hm. destruct Hm as [L Hm]. split.
-  - intros s' o' x' t' Hin Ho. rewrite <- E1 in Hin. apply in_run_in_ops in Hin. specialize (Hb _ _ Hin Ho). lia.
-  - intros s' o' x' t' Hin Ho. rewrite Epost in Hin. apply in_run_in_ops in Hin. eapply mono_ge; eassumption.
-Qed.
-
-(* two steps at different clock readings come in the order of their readings *)
-Lemma run_two st t0 ops a b ta tb : mono t0 ops -> In a (R.run st ops) -> In b (R.run st ops) ->
-  op_time (snd (fst a)) = Some ta -> op_time (snd (fst b)) = Some tb -> ta < tb ->
-  exists pre mid post, R.run st ops = pre ++ a :: mid ++ b :: post.
-Proof.
-  intros Hm Ha Hb Hta Htb Hlt. destruct (in_split _ _ Ha) as (pre & post' & E). destruct a as [[sa oa] xa], b as [[sb ob] xb]. cbn [fst snd] in *.
-  destruct (run_order _ _ _ _ _ _ _ _ _ Hm E Hta) as [Hpre Hpost].
-  rewrite E in Hb. apply in_app_or in Hb as [Hb|[Hb|Hb]].
-  - specialize (Hpre _ _ _ _ Hb Htb). lia.
-  - inversion Hb; subst. rewrite Hta in Htb. inversion Htb. lia.
-  - destruct (in_split _ _ Hb) as (mid & post & E2). exists pre, mid, post. rewrite E, E2. reflexivity.
-Qed.
-
-(* every remembered time of k stems from a forward of k in the history, or was remembered in the starting state *)
-Lemma cache_from_forward : forall ops st k t, In (k, t) (R.cache (R.final st ops)) ->
-  In (k, t) (R.cache st) \/ exists s r c, In (s, R.Req r t, R.Forward c) (R.run st ops) /\ R.key_of r = k.
-Proof.
-  induction ops as [|o ops IH]; intros st k t Hin; [left; exact Hin|]. cbn [R.final] in Hin. rewrite run_cons.
-  destruct (IH _ _ _ Hin) as [Hc|(s & r & c & Hr & Hk)]; [|right; exists s, r, c; split; [right; exact Hr|exact Hk]].
-  destruct o as [r u|u|c].
-  - destruct (req_cases st r u) as [(_ & Ef & Ec)|(Es & _)]; [|rewrite Es in Hc; left; exact Hc].
-    rewrite Ec in Hc. destruct Hc as [Hc|Hc]; [|left; exact Hc]. inversion Hc; subst. right. exists st, r, (R.chain_of r). split; [left; rewrite Ef; reflexivity|reflexivity].
-  - cbn [R.step fst R.cache] in Hc. apply filter_In in Hc as [Hc _]. left. exact Hc.
-  - cbn [R.step] in Hc. destruct (R.find_queue (R.queues st) c) as [q|]; [destruct (R.q_items q)|]; left; exact Hc.
-Qed.
-
-Definition is_fwd (k : R.rkey) (e : R.state * R.op * R.out) : bool :=
-  match e with (_, R.Req r _, R.Forward _) => R.key_eqb (R.key_of r) k | _ => false end.
-
-Lemma nofwd_of_existsb k tr : existsb (is_fwd k) tr = false -> nofwd k tr.
-Proof.
-  intros H s r t c Hin E. assert (X : existsb (is_fwd k) tr = true); [|congruence].
-  apply existsb_exists. exists (s, R.Req r t, R.Forward c). split; [exact Hin|]. cbn. rewrite E. apply key_eqb_refl.
-Qed.
-
-(* "forwarded again", positional form: a purge tick later than t + window, LATER IN THE HISTORY a request of k that finds room:
-   some request of k has been forwarded after t and not later than that request - whatever else arrived in between *)
-Theorem forward_between_pos st t0 ops k t pre stau tau mid s2 r2 u o2 post :
-  mono t0 ops -> cache_wf st -> known st (fst k) ->
-  (forall t', In (k, t') (R.cache st) -> t' <= t) ->
-  R.run st ops = pre ++ (stau, R.Tick tau, R.Purged) :: mid ++ (s2, R.Req r2 u, o2) :: post ->
-  t + reobs_window < tau -> R.key_of r2 = k -> o2 <> R.DropFull ->
-  exists s r f c, In (s, R.Req r f, R.Forward c) (R.run st ops) /\ R.key_of r = k /\ t < f <= u.
-Proof.
-  intros Hm W K Hold E Hgap Hk Hnf. pose proof window_pos as Wpos.
-  destruct (run_order _ _ _ _ _ _ _ _ _ Hm E eq_refl) as [Hpre Hpost].
-  assert (Hlt : tau <= u) by (eapply (Hpost s2 (R.Req r2 u) o2); [apply in_or_app; right; left; reflexivity|reflexivity]).
-  destruct (existsb (is_fwd k) mid) eqn:Ex.
-  - apply existsb_exists in Ex as ([[s o] x] & Hin & Hf). destruct o as [r f| |]; try discriminate Hf. destruct x; try discriminate Hf.
-    cbn [is_fwd] in Hf. apply key_eqb_eq in Hf. exists s, r, f, c. split; [rewrite E; apply in_or_app; right; right; apply in_or_app; left; exact Hin|]. split; [exact Hf|].
-    assert (A : tau <= f) by (eapply (Hpost s (R.Req r f) (R.Forward c)); [apply in_or_app; left; exact Hin|reflexivity]).
-    assert (E' : R.run st ops = (pre ++ (stau, R.Tick tau, R.Purged) :: mid) ++ (s2, R.Req r2 u, o2) :: post) by (rewrite E, <- app_assoc; reflexivity).
-    destruct (run_order _ _ _ _ _ _ _ _ _ Hm E' eq_refl) as [Hpre2 _].
-    assert (B : f <= u) by (eapply (Hpre2 s (R.Req r f) (R.Forward c)); [apply in_or_app; right; right; exact Hin|reflexivity]). lia.
-  - apply nofwd_of_existsb in Ex.
-    destruct (run_final_split _ _ _ _ _ E) as (ops1 & o & ops2 & -> & Epre & Ex1 & Epost). injection Ex1 as -> <- _.
-    set (sa := R.final st ops1) in *. set (sb := fst (R.step sa (R.Tick tau))) in *.
-    symmetry in Epost. destruct (run_final_split _ _ _ _ _ Epost) as (opsm & o' & opsp & -> & Em & Ex2 & _). injection Ex2 as -> <- Ho2.
-    set (sc := R.final sb opsm) in *.
-    assert (Wb : cache_wf sb) by (apply wf_step; apply wf_final; exact W).
-    assert (Kc : known sc (fst k)) by (apply known_final; apply known_step; apply known_final; exact K).
-    destruct (R.cache_get (R.cache sb) k) as [t3|] eqn:Eg.
-    + (* still remembered after the purge: remembered later than t, hence forwarded later than t *)
-      unfold sb in Eg. cbn [R.step fst R.cache] in Eg. apply cache_get_filter_some in Eg as [Hin3 Hnp].
-      assert (Hge : tau - t3 <= reobs_window) by (destruct (Z_lt_le_dec reobs_window (tau - t3)) as [X|X]; [apply purge_strict in X; congruence|exact X]).
-      destruct (cache_from_forward ops1 st k t3 Hin3) as [Hc|(s & r & c & Hr & Hkk)]; [specialize (Hold _ Hc); lia|].
-      exists s, r, t3, c. rewrite Epre in Hr. split; [rewrite E; apply in_or_app; left; exact Hr|]. split; [exact Hkk|].
-      specialize (Hpre _ _ _ _ Hr eq_refl). lia.
-    + (* forgotten: it stays forgotten until the request, which is therefore forwarded *)
-      assert (Hnone : R.cache_get (R.cache sc) k = None) by (apply stay_none; [exact Eg|rewrite Em; exact Ex]).
-      assert (Ho : o2 = R.Forward (R.chain_of r2)).
-      { subst k. unfold known in Kc. cbn [R.key_of fst] in Kc. rewrite Ho2 in Hnf |- *. cbn [R.step] in Hnf |- *. rewrite Hnone in Hnf |- *. cbn [R.key_of fst] in Hnf |- *.
-        destruct (R.find_queue (R.queues sc) (R.chain_of r2)) as [q|] eqn:Eq; [|contradiction].
-        destruct (R.full q) eqn:Ef; [|reflexivity]. exfalso. apply Hnf. cbn [snd]. rewrite send_nonblocking. reflexivity. }
-      exists sc, r2, u, (R.chain_of r2). split; [|split; [exact Hk|lia]].
-      rewrite E. apply in_or_app; right; right. apply in_or_app; right; left. rewrite Ho. reflexivity.
-Qed.
-
-(* ... and with clock readings deciding the order *)
-Corollary forward_between st t0 ops k t stau tau s2 r2 u o2 :
-  mono t0 ops -> cache_wf st -> known st (fst k) ->
-  (forall t', In (k, t') (R.cache st) -> t' <= t) ->
-  In (stau, R.Tick tau, R.Purged) (R.run st ops) -> t + reobs_window < tau ->
-  In (s2, R.Req r2 u, o2) (R.run st ops) -> R.key_of r2 = k -> tau < u -> o2 <> R.DropFull ->
-  exists s r f c, In (s, R.Req r f, R.Forward c) (R.run st ops) /\ R.key_of r = k /\ t < f <= u.
-Proof.
-  intros Hm W K Hold Htick Hgap Hreq Hk Hlt Hnf.
-  destruct (run_two st t0 ops _ _ tau u Hm Htick Hreq eq_refl eq_refl Hlt) as (pre & mid & post & E).
-  eapply forward_between_pos; eassumption.
-Qed.
-End Dispatcher.
-
-(* ================================================================== Part 2: time and structure of composed histories *)
-(* clock readings never decrease along a history *)
-Fixpoint lmono (t0 : Z) (H : list lop) : Prop :=
-  match H with
-  | [] => True
-  | LClock t :: r => t0 <= t /\ lmono t r
-  | _ :: r => lmono t0 r
-  end.
-
-Definition last_clock (c : Z) (ops : list op) : Z := fold_left (fun c o => match o with SetClock t => t | _ => c end) ops c.
-
-Section Loop2.
+Section Loop3.
 Variable recover : bytes -> bytes -> option bytes.
 Variable keccak : bytes -> bytes.
 Variable sign : bytes -> bytes.
@@ -503,157 +169,36 @@ Notation feed_spec := (feed_spec recover keccak sign own gov_chain gov_addr).
 Notation lstep_wf := (lstep_wf recover keccak sign own gov_chain gov_addr decode_hb decodeq encq self disable watch).
 Notation lrun_wf := (lrun_wf recover keccak sign own gov_chain gov_addr decode_hb decodeq encq self disable watch).
 
-Lemma lrun_app : forall H1 st H2, lrun st (H1 ++ H2) = let '(s1, e1) := lrun st H1 in let '(s2, e2) := lrun s1 H2 in (s2, e1 ++ e2).
-Proof.
-  induction H1 as [|o H1 IH]; intros st H2; cbn [app ReobsLoop.lrun]; [destruct (lrun st H2); reflexivity|].
-  destruct (lstep st o) as [st1 e1]. rewrite IH. destruct (lrun st1 H1) as [s1 e1']. destruct (lrun s1 H2) as [s2 e2]. rewrite app_assoc. reflexivity.
-Qed.
-Lemma lrun_cons st o H : lrun st (o :: H) = (fst (lrun (fst (lstep st o)) H), snd (lstep st o) ++ snd (lrun (fst (lstep st o)) H)).
-Proof. cbn [ReobsLoop.lrun]. destruct (lstep st o) as [st1 e1]. cbn [fst snd]. destruct (lrun st1 H). reflexivity. Qed.
-Lemma lrun_app_fst st H1 H2 : fst (lrun st (H1 ++ H2)) = fst (lrun (fst (lrun st H1)) H2).
-Proof. rewrite lrun_app. destruct (lrun st H1) as [s1 e1]. cbn [fst snd]. destruct (lrun s1 H2). reflexivity. Qed.
-Lemma lrun_app_snd st H1 H2 : snd (lrun st (H1 ++ H2)) = snd (lrun st H1) ++ snd (lrun (fst (lrun st H1)) H2).
-Proof. rewrite lrun_app. destruct (lrun st H1) as [s1 e1]. cbn [fst snd]. destruct (lrun s1 H2). reflexivity. Qed.
-
-Lemma lstates_app : forall H1 st H2, lstates st (H1 ++ H2) = lstates st H1 ++ lstates (fst (lrun st H1)) H2.
-Proof.
-  induction H1 as [|o H1 IH]; intros st H2; [reflexivity|]. cbn [app ReobsLoop.lstates]. rewrite IH, lrun_cons. reflexivity.
-Qed.
-Lemma lstates_split : forall H st s o, In (s, o) (lstates st H) -> exists H1 H2, H = H1 ++ o :: H2 /\ s = fst (lrun st H1).
-Proof.
-  induction H as [|o' H IH]; intros st s o Hin; [destruct Hin|]. cbn [ReobsLoop.lstates] in Hin. destruct Hin as [E|Hin].
-  - inversion E; subst. exists [], H. split; reflexivity.
-  - destruct (IH _ _ _ Hin) as (H1 & H2 & -> & ->). exists (o' :: H1), H2. split; [reflexivity|]. rewrite lrun_cons. reflexivity.
-Qed.
-
-(* ---- one step: the clock, the time tags, the processor inputs, the send queue *)
-Lemma lstep_now st o : l_now (fst (lstep st o)) = match o with LClock t => t | _ => l_now st end.
-Proof.
-  destruct o as [t| |q| |from m| |c|e]; cbn [ReobsLoop.lstep].
-  - match goal with |- context [feed ?s ?os] => destruct (feed_spec os s) as ((_ & _ & _ & F) & _); destruct (feed s os) end. cbn [fst l_now] in *. congruence.
-  - pose proof (feed_spec (cleanup_ops (l_now st)) st) as F. destruct (feed st (cleanup_ops (l_now st))) as [st1 e1]. destruct F as ((_ & _ & _ & F) & _).
-    pose proof (post_all_spec (reqs_of_evs e1) st1) as Q. destruct (post_all st1 (reqs_of_evs e1)) as [st2 e2]. destruct Q as ((_ & _ & _ & Q) & _). cbn [fst] in *. congruence.
-  - pose proof (post_all_spec [q] st) as Q. destruct (post_all st [q]) as [st2 e2]. destruct Q as ((_ & _ & _ & Q) & _). cbn [fst] in *. congruence.
-  - destruct (l_sendq st) as [|q qs]; [reflexivity|]. destruct (gstep (l_p2p st) (G.LLocalReq (encq q))) as [g' outs].
-    match goal with |- context [dispatch_all ?s ?rs] => pose proof (dispatch_all_spec rs s) as D; destruct (dispatch_all s rs) as [st1 e1] end.
-    destruct D as ((_ & _ & _ & D) & _). cbn [fst with_p2p with_sendq l_now] in *. congruence.
-  - destruct (gstep (l_p2p st) (G.LRecv from m)) as [g' outs].
-    match goal with |- context [feed ?s ?os] => pose proof (feed_spec os s) as F; destruct (feed s os) as [st1 e1] end. destruct F as ((_ & _ & _ & F) & _).
-    pose proof (dispatch_all_spec (reqs_of decodeq outs) st1) as D. destruct (dispatch_all st1 (reqs_of decodeq outs)) as [st2 e2]. destruct D as ((_ & _ & _ & D) & _).
-    cbn [fst with_p2p l_now] in *. congruence.
-  - unfold dispatch. destruct (R.step _ _). reflexivity.
-  - destruct (R.step (l_disp st) (R.Drain c)) as [d' x]. destruct x as [c0| | | | | |[r|]]; try reflexivity.
-    match goal with |- context [feed ?s ?os] => pose proof (feed_spec os s) as F; destruct (feed s os) as [st2 e2] end. destruct F as ((_ & _ & _ & F) & _). cbn [fst with_disp l_now] in *. congruence.
-  - match goal with |- context [feed ?s ?os] => pose proof (feed_spec os s) as F; destruct (feed s os) as [st2 e2] end. destruct F as ((_ & _ & _ & F) & _). cbn [fst] in *. rewrite <- F. destruct e; reflexivity.
-Qed.
+Notation prun_app := (ReobsLoopBase.prun_app recover keccak sign own gov_chain gov_addr).
+Notation pwf_app := (ReobsLoopBase.pwf_app recover keccak sign own gov_chain gov_addr).
+Notation pwf_none := (ReobsLoopBase.pwf_none recover keccak sign own gov_chain gov_addr).
+Notation lrun_app := (ReobsLoopBase.lrun_app recover keccak sign own gov_chain gov_addr decode_hb decodeq encq self disable watch).
+Notation lrun_cons := (ReobsLoopBase.lrun_cons recover keccak sign own gov_chain gov_addr decode_hb decodeq encq self disable watch).
+Notation lrun_app_fst := (ReobsLoopBase.lrun_app_fst recover keccak sign own gov_chain gov_addr decode_hb decodeq encq self disable watch).
+Notation lrun_app_snd := (ReobsLoopBase.lrun_app_snd recover keccak sign own gov_chain gov_addr decode_hb decodeq encq self disable watch).
+Notation lstates_app := (ReobsLoopBase.lstates_app recover keccak sign own gov_chain gov_addr decode_hb decodeq encq self disable watch).
+Notation lstates_split := (ReobsLoopBase.lstates_split recover keccak sign own gov_chain gov_addr decode_hb decodeq encq self disable watch).
+Notation lstep_now := (ReobsLoopBase.lstep_now recover keccak sign own gov_chain gov_addr decode_hb decodeq encq self disable watch).
+Notation lstep_tags := (ReobsLoopBase.lstep_tags recover keccak sign own gov_chain gov_addr decode_hb decodeq encq self disable watch).
+Notation lstep_pops := (ReobsLoopBase.lstep_pops recover keccak sign own gov_chain gov_addr decode_hb decodeq encq self disable watch).
+Notation lstep_no_cleanup := (ReobsLoopBase.lstep_no_cleanup recover keccak sign own gov_chain gov_addr decode_hb decodeq encq self disable watch).
+Notation lstep_dops := (ReobsLoopBase.lstep_dops recover keccak sign own gov_chain gov_addr decode_hb decodeq encq self disable watch).
+Notation lmono_step := (ReobsLoopBase.lmono_step recover keccak sign own gov_chain gov_addr decode_hb decodeq encq self disable watch).
+Notation lrun_mono := (ReobsLoopBase.lrun_mono recover keccak sign own gov_chain gov_addr decode_hb decodeq encq self disable watch).
+Notation lrun_now_le := (ReobsLoopBase.lrun_now_le recover keccak sign own gov_chain gov_addr decode_hb decodeq encq self disable watch).
+Notation lmono_app := (ReobsLoopBase.lmono_app recover keccak sign own gov_chain gov_addr decode_hb decodeq encq self disable watch).
+Notation lrun_tags := (ReobsLoopBase.lrun_tags recover keccak sign own gov_chain gov_addr decode_hb decodeq encq self disable watch).
+Notation loop_forwards_window_apart := (ReobsLoopBase.loop_forwards_window_apart recover keccak sign own gov_chain gov_addr decode_hb decodeq encq self disable watch).
+Notation lstep_localmsg_source := (ReobsLoopBase.lstep_localmsg_source recover keccak sign own gov_chain gov_addr decode_hb decodeq encq self disable watch).
+Notation loop_signs_only_watched := (ReobsLoopBase.loop_signs_only_watched recover keccak sign own gov_chain gov_addr decode_hb decodeq encq self disable watch).
+Notation loop_signs_only_final := (ReobsLoopBase.loop_signs_only_final recover keccak sign own gov_chain gov_addr decode_hb decodeq encq self disable watch).
+Notation sendobs_source := (ReobsLoopBase.sendobs_source recover keccak sign own gov_chain gov_addr).
+Notation handle_message_never_publishes := (ReobsLoopBase.handle_message_never_publishes recover keccak sign own gov_chain gov_addr).
+Notation lstep_watch_feeds := (ReobsLoopBase.lstep_watch_feeds recover keccak sign own gov_chain gov_addr decode_hb decodeq encq self disable watch).
 
 Ltac open_feed F := match goal with |- context [feed ?s ?os] => pose proof (feed_spec os s) as F; destruct (feed s os) as [? ?] end.
 Ltac open_dall D := match goal with |- context [dispatch_all ?s ?rs] => pose proof (dispatch_all_spec rs s) as D; destruct (dispatch_all s rs) as [? ?] end.
 Ltac open_post Q := match goal with |- context [post_all ?s ?rs] => pose proof (post_all_spec rs s) as Q; destruct (post_all s rs) as [? ?] end.
-
-(* every event of a step carries the clock reading the step ends with *)
-Lemma lstep_tags st o : Forall (fun e => fst e = l_now (fst (lstep st o))) (snd (lstep st o)).
-Proof.
-  rewrite lstep_now. destruct o as [t| |q| |from m| |c|e]; cbn [ReobsLoop.lstep].
-  - open_feed F. destruct F as (_ & _ & _ & F & _). cbn [snd l_now] in *. eapply Forall_impl; [|exact F]. intros a [A _]. exact A.
-  - open_feed F. destruct F as ((_ & _ & _ & F0) & _ & _ & F & _). open_post Q. destruct Q as (_ & _ & _ & Q). cbn [fst snd] in *.
-    apply Forall_app. split; [eapply Forall_impl; [|exact F]; intros a [A _]; exact A|eapply Forall_impl; [|exact Q]; intros a [A _]; congruence].
-  - open_post Q. destruct Q as (_ & _ & _ & Q). cbn [snd]. eapply Forall_impl; [|exact Q]. intros a [A _]. exact A.
-  - destruct (l_sendq st) as [|q qs]; [constructor|]. destruct (gstep (l_p2p st) (G.LLocalReq (encq q))) as [g' outs]. open_dall D.
-    destruct D as (_ & _ & _ & D & _). cbn [snd with_p2p with_sendq l_now] in *. apply Forall_app. split; [eapply Forall_impl; [|exact D]; intros a [A _]; exact A|constructor; [reflexivity|constructor]].
-  - destruct (gstep (l_p2p st) (G.LRecv from m)) as [g' outs]. open_feed F. destruct F as ((_ & _ & _ & F0) & _ & _ & F & _). open_dall D. destruct D as (_ & _ & _ & D & _).
-    cbn [fst snd with_p2p l_now] in *. apply Forall_app. split; [eapply Forall_impl; [|exact F]; intros a [A _]; exact A|eapply Forall_impl; [|exact D]; intros a [A _]; congruence].
-  - unfold dispatch. destruct (R.step _ _). constructor; [reflexivity|constructor].
-  - destruct (R.step (l_disp st) (R.Drain c)) as [d' x]. destruct x as [c0| | | | | |[r|]]; try (constructor; [reflexivity|constructor]).
-    open_feed F. destruct F as (_ & _ & _ & F & _). cbn [snd with_disp l_now] in *. constructor; [reflexivity|]. constructor; [reflexivity|]. eapply Forall_impl; [|exact F]. intros a [A _]. exact A.
-  - open_feed F. destruct F as (_ & _ & _ & F & _). cbn [snd] in *. eapply Forall_impl; [|exact F]. intros a [A _]. rewrite A. destruct e; reflexivity.
-Qed.
-
-(* the processor inputs of a step *)
-Lemma lstep_pops st o : pops (snd (lstep st o)) =
-  match o with
-  | LClock t => [SetClock t]
-  | LCleanup => cleanup_ops (l_now st)
-  | LGossip from m => proc_ops_of (snd (gstep (l_p2p st) (G.LRecv from m)))
-  | LWatch c => match snd (R.step (l_disp st) (R.Drain c)) with R.Drained (Some r) => map LocalMsg (watch c r (l_now st)) | _ => [] end
-  | LEnv e => [op_of_env e]
-  | _ => []
-  end.
-Proof.
-  destruct o as [t| |q| |from m| |c|e]; cbn [ReobsLoop.lstep].
-  - open_feed F. destruct F as (_ & _ & _ & _ & F). exact F.
-  - open_feed F. destruct F as (_ & _ & _ & _ & F). open_post Q. destruct Q as (_ & _ & Q & _). cbn [snd] in *. rewrite pops_app, F. unfold pops. rewrite Q. apply app_nil_r.
-  - open_post Q. destruct Q as (_ & _ & Q & _). cbn [snd] in *. unfold pops. rewrite Q. reflexivity.
-  - destruct (l_sendq st) as [|q qs]; [reflexivity|]. destruct (gstep (l_p2p st) (G.LLocalReq (encq q))) as [g' outs]. open_dall D.
-    destruct D as (_ & _ & D & _). cbn [snd] in *. unfold pops. rewrite proc_of_app, D. reflexivity.
-  - destruct (gstep (l_p2p st) (G.LRecv from m)) as [g' outs]. open_feed F. destruct F as (_ & _ & _ & _ & F). open_dall D. destruct D as (_ & _ & D & _).
-    cbn [snd] in *. rewrite pops_app, F. unfold pops. rewrite D. apply app_nil_r.
-  - unfold dispatch. destruct (R.step _ _). reflexivity.
-  - destruct (R.step (l_disp st) (R.Drain c)) as [d' x]. cbn [snd]. destruct x as [c0| | | | | |[r|]]; try reflexivity.
-    open_feed F. destruct F as (_ & _ & _ & _ & F). cbn [snd] in *. exact F.
-  - open_feed F. destruct F as (_ & _ & _ & _ & F). exact F.
-Qed.
-
-Lemma lstep_no_cleanup st o : o <> LCleanup -> Forall (fun x => x <> Cleanup) (pops (snd (lstep st o))).
-Proof.
-  intros Hn. rewrite lstep_pops. destruct o as [t| |q| |from m| |c|e]; try contradiction; try constructor; try discriminate; try constructor.
-  - unfold proc_ops_of. apply Forall_forall. intros x Hx. apply in_flat_map in Hx as (y & _ & Hy). destruct y; [destruct Hy as [<-|[]]; discriminate|destruct Hy as [<-|[]]; discriminate|destruct Hy].
-  - destruct (snd (R.step (l_disp st) (R.Drain c))) as [c0| | | | | |[r|]]; try constructor. apply Forall_forall. intros x Hx. apply in_map_iff in Hx as (y & <- & _). discriminate.
-  - destruct e; discriminate.
-Qed.
-
-(* the dispatcher ops of a step carry the clock reading of the step (a drain carries none) *)
-Lemma lstep_dops st o : Forall (fun d => RP.op_time d = Some (l_now (fst (lstep st o))) \/ RP.op_time d = None) (dops (snd (lstep st o))).
-Proof.
-  rewrite lstep_now. destruct o as [t| |q| |from m| |c|e]; cbn [ReobsLoop.lstep].
-  - open_feed F. destruct F as (_ & _ & F & _). unfold dops. cbn [snd] in *. rewrite F. constructor.
-  - open_feed F. destruct F as (_ & _ & F & _). open_post Q. destruct Q as (_ & Q & _). unfold dops. cbn [snd] in *. rewrite disp_of_app, F, Q. constructor.
-  - open_post Q. destruct Q as (_ & Q & _). unfold dops. cbn [snd] in *. rewrite Q. constructor.
-  - destruct (l_sendq st) as [|q qs]; [constructor|]. destruct (gstep (l_p2p st) (G.LLocalReq (encq q))) as [g' outs]. open_dall D.
-    destruct D as (_ & _ & _ & _ & D). cbn [snd with_p2p with_sendq l_now] in *. rewrite dops_app, D. apply Forall_app. split; [|constructor].
-    apply Forall_forall. intros d Hd. apply in_map_iff in Hd as (y & <- & _). left. reflexivity.
-  - destruct (gstep (l_p2p st) (G.LRecv from m)) as [g' outs]. open_feed F. destruct F as ((_ & _ & _ & F0) & _ & F & _). open_dall D. destruct D as (_ & _ & _ & _ & D).
-    cbn [fst snd with_p2p l_now] in *. rewrite dops_app, D. unfold dops at 1. rewrite F. cbn [map app].
-    apply Forall_forall. intros d Hd. apply in_map_iff in Hd as (y & <- & _). left. cbn. congruence.
-  - unfold dispatch. destruct (R.step _ _). constructor; [left; reflexivity|constructor].
-  - destruct (R.step (l_disp st) (R.Drain c)) as [d' x]. destruct x as [c0| | | | | |[r|]]; try (constructor; [right; reflexivity|constructor]).
-    open_feed F. destruct F as (_ & _ & F & _). cbn [snd] in *. unfold dops. cbn [disp_of flat_map snd app map fst]. fold (disp_of l0). rewrite F. constructor; [right; reflexivity|constructor].
-  - open_feed F. destruct F as (_ & _ & F & _). unfold dops. cbn [snd] in *. rewrite F. constructor.
-Qed.
-
-(* ---- monotone clock: the dispatcher's sub-history has monotone clock readings *)
-Lemma mono_app_intro t1 : forall a t0 b, Forall (fun d => RP.op_time d = Some t1 \/ RP.op_time d = None) a -> t0 <= t1 -> RP.mono t1 b -> RP.mono t0 (a ++ b).
-Proof.
-  induction a as [|d a IH]; intros t0 b Ha Hle Hb; [eapply RP.mono_weaken; eassumption|]. inversion Ha as [|? ? Hd Ha']; subst. cbn [app RP.mono].
-  destruct Hd as [Hd|Hd]; rewrite Hd; [split; [exact Hle|apply IH; [exact Ha'|lia|exact Hb]]|apply IH; assumption].
-Qed.
-
-Lemma lmono_step st o H : lmono (l_now st) (o :: H) -> l_now st <= l_now (fst (lstep st o)) /\ lmono (l_now (fst (lstep st o))) H.
-Proof. rewrite lstep_now. destruct o; cbn [lmono]; intros Hm; try (split; [lia|exact Hm]). exact Hm. Qed.
-
-Lemma lrun_mono : forall H st, lmono (l_now st) H -> RP.mono (l_now st) (dops (snd (lrun st H))).
-Proof.
-  induction H as [|o H IH]; intros st Hm; [exact I|]. rewrite lrun_cons. cbn [snd]. rewrite dops_app.
-  apply lmono_step in Hm as [Hle Hm]. eapply mono_app_intro; [apply lstep_dops|exact Hle|apply IH; exact Hm].
-Qed.
-
-Lemma lrun_now_le : forall H st, lmono (l_now st) H -> l_now st <= l_now (fst (lrun st H)).
-Proof.
-  induction H as [|o H IH]; intros st Hm; [cbn; lia|]. rewrite lrun_cons. cbn [fst]. apply lmono_step in Hm as [Hle Hm]. specialize (IH _ Hm). lia.
-Qed.
-Lemma lmono_app : forall H1 st H2, lmono (l_now st) (H1 ++ H2) -> lmono (l_now st) H1 /\ lmono (l_now (fst (lrun st H1))) H2.
-Proof.
-  induction H1 as [|o H1 IH]; intros st H2 Hm; [split; [exact I|exact Hm]|]. cbn [app] in Hm. apply lmono_step in Hm as [Hle Hm].
-  destruct (IH _ _ Hm) as [A B]. rewrite lrun_cons. cbn [fst]. split; [|exact B]. rewrite lstep_now in A. destruct o; cbn [lmono]; try exact A. rewrite lstep_now in Hle. split; [exact Hle|exact A].
-Qed.
-(* every event of a history carries a clock reading between those of its first and its last state *)
-Lemma lrun_tags : forall H st, lmono (l_now st) H -> Forall (fun e => l_now st <= fst e <= l_now (fst (lrun st H))) (snd (lrun st H)).
-Proof.
-  induction H as [|o H IH]; intros st Hm; [constructor|]. rewrite lrun_cons. cbn [fst snd]. apply lmono_step in Hm as [Hle Hm].
-  pose proof (lrun_now_le _ _ Hm) as Hle2. apply Forall_app. split.
-  - eapply Forall_impl; [|apply lstep_tags]. intros e He. cbn beta in He. lia.
-  - eapply Forall_impl; [|apply IH; exact Hm]. intros e He. cbn beta in He. lia.
-Qed.
 
 (* ---- the processor inside: runs of handlers other than the tick *)
 Lemma prun_cons st o ops : prun st (o :: ops) = (fst (prun (fst (step st o)) ops), snd (step st o) :: snd (prun (fst (step st o)) ops)).
@@ -696,28 +241,6 @@ Proof.
   induction ops as [|o ops IH]; intros st Hn; [reflexivity|]. inversion Hn as [|? ? Ho Hn']; subst. rewrite prun_cons. cbn [fst]. rewrite IH by exact Hn'.
   assert (Hc : o <> Cleanup) by (destruct o; try contradiction; discriminate).
   destruct (step_shape recover keccak sign own gov_chain gov_addr st o Hc) as (_ & _ & C). rewrite C. destruct o; try contradiction; reflexivity.
-Qed.
-
-(* ---- PostObservationRequest of a burst *)
-Lemma post_all_incl : forall rs st, incl (l_sendq st) (l_sendq (fst (post_all st rs))).
-Proof.
-  induction rs as [|q rs IH]; intros st; [apply incl_refl|]. cbn [ReobsLoop.post_all].
-  destruct (R.post sendq_cap (l_sendq st) q) as [q' res] eqn:Ep. specialize (IH (with_sendq st q')).
-  destruct (post_all (with_sendq st q') rs) as [st2 e2]. cbn [fst with_sendq l_sendq] in *.
-  eapply incl_tran; [|exact IH]. unfold R.post in Ep. destruct (sendq_cap <=? length (l_sendq st))%nat; inversion Ep; subst; [apply incl_refl|apply incl_appl; apply incl_refl].
-Qed.
-
-Lemma post_all_in : forall rs st r, In r rs ->
-  In r (l_sendq (fst (post_all st rs))) \/ In (l_now st, EPost r R.PostErrChanFull) (snd (post_all st rs)).
-Proof.
-  induction rs as [|q rs IH]; intros st r Hin; [destruct Hin|]. cbn [ReobsLoop.post_all].
-  destruct (R.post sendq_cap (l_sendq st) q) as [q' res] eqn:Ep. specialize (IH (with_sendq st q') r).
-  pose proof (post_all_incl rs (with_sendq st q')) as Hk.
-  destruct (post_all (with_sendq st q') rs) as [st2 e2]. cbn [fst snd with_sendq l_sendq l_now] in *.
-  destruct Hin as [->|Hin]; [|destruct (IH Hin) as [A|A]; [left; exact A|right; right; exact A]].
-  unfold R.post in Ep. destruct (sendq_cap <=? length (l_sendq st))%nat; inversion Ep; subst.
-  - right. left. reflexivity.
-  - left. apply Hk. apply in_or_app. right. left. reflexivity.
 Qed.
 
 (* ---- the cleanup step of the composition, computed *)
@@ -929,13 +452,6 @@ Proof.
 Qed.
 
 (* ================================================================== Part 5: the loop theorems *)
-Lemma disp_of_in tr s o x : In (s, o, x) (disp_of tr) <-> exists u, In (u, EDisp s o x) tr.
-Proof.
-  unfold disp_of. rewrite in_flat_map. split.
-  - intros ([u e] & Hin & He). cbn [snd] in He. destruct e; try (destruct He; fail). destruct He as [He|[]]. inversion He; subst. exists u. exact Hin.
-  - intros (u & Hin). exists (u, EDisp s o x). split; [exact Hin|left; reflexivity].
-Qed.
-
 Lemma lstates_now : forall H st s o, lmono (l_now st) H -> In (s, o) (lstates st H) -> l_now st <= l_now s <= l_now (fst (lrun st H)).
 Proof.
   intros H st s o Hm Hin. destruct (lstates_split _ _ _ _ Hin) as (H1 & H2 & -> & ->). destruct (lmono_app _ _ _ Hm) as [M1 M2].
@@ -1061,18 +577,6 @@ Qed.
 
 (* (a) CADENCE, lower bound and (b) NO AMPLIFICATION at the dispatcher: whatever arrives - local retries, requests of any number of
    peers for the same (chain, transaction), at any rate - two forwards of one key to its watcher are more than the window apart *)
-Theorem loop_forwards_window_apart H st0 pre u1 s1 r1 t1 c1 mid u2 s2 r2 t2 c2 post :
-  lmono (l_now st0) H ->
-  snd (lrun st0 H) = pre ++ (u1, EDisp s1 (R.Req r1 t1) (R.Forward c1)) :: mid ++ (u2, EDisp s2 (R.Req r2 t2) (R.Forward c2)) :: post ->
-  R.key_of r1 = R.key_of r2 -> reobs_window < t2 - t1.
-Proof.
-  intros Hm E Hk. destruct (lrun_wf H st0) as [[Dw _] _]. rewrite E in Dw at 1. rewrite disp_of_app in Dw. cbn [disp_of flat_map snd app] in Dw.
-  fold (disp_of (mid ++ (u2, EDisp s2 (R.Req r2 t2) (R.Forward c2)) :: post)) in Dw. rewrite disp_of_app in Dw. cbn [disp_of flat_map snd app] in Dw. fold (disp_of post) in Dw.
-  eapply RP.forwards_window_apart; [apply lrun_mono; exact Hm|symmetry; exact Dw|exact Hk].
-Qed.
-
-(* (b) NO AMPLIFICATION at the processor: two retries of one pending message (within one lifetime of its aggregation entry) are at
-   least the retry period apart - one request per message per five minutes, however often the ticker fires *)
 Lemma cleanup_keep_cases now indb ck e e' o : cleanup_entry now indb ck e = CKeep e' o ->
   (e' = e /\ o = []) \/ (e' = set_settled e /\ o = []) \/
   (exists ob, our_msg e = Some ob /\ e' = set_retried e now /\ retries e < proc_own_retry_budget /\
@@ -1191,136 +695,7 @@ Proof.
 Qed.
 
 (* (c) SAFETY THROUGH THE LOOP *)
-Lemma in_proc_event tr u o outs : In (u, EProc o outs) tr -> In o (pops tr).
-Proof. intros Hin. unfold pops, proc_of. apply in_map_iff. exists (o, outs). split; [reflexivity|]. apply in_flat_map. exists (u, EProc o outs). split; [exact Hin|left; reflexivity]. Qed.
-
-(* where a chain message handled by the processor in one step of the composition comes from: the environment (a watcher's
-   polling path) or the answer of the watcher's re-observation path to the request it took from its queue in this very step.
-   In particular NO gossip step - whatever request, observation or VAA a peer sends - makes the processor handle a chain message *)
-Lemma lstep_localmsg_source st o u m outs : In (u, EProc (LocalMsg m) outs) (snd (lstep st o)) ->
-  o = LEnv (VMsg m) \/
-  exists c r, o = LWatch c /\ snd (R.step (l_disp st) (R.Drain c)) = R.Drained (Some r) /\ In m (watch c r (l_now st)).
-Proof.
-  intros Hin. apply in_proc_event in Hin. rewrite lstep_pops in Hin. destruct o as [t| |q| |from mm| |c|e].
-  - destruct Hin as [X|[]]; discriminate X.
-  - cbn in Hin. destruct Hin as [X|[X|[X|[]]]]; discriminate X.
-  - destruct Hin.
-  - destruct Hin.
-  - unfold proc_ops_of in Hin. apply in_flat_map in Hin as (y & _ & Hy). destruct y; [destruct Hy as [X|[]]; discriminate X|destruct Hy as [X|[]]; discriminate X|destruct Hy].
-  - destruct Hin.
-  - right. destruct (snd (R.step (l_disp st) (R.Drain c))) as [c0| | | | | |[r|]] eqn:E; try destruct Hin. exists c, r. split; [reflexivity|]. split; [exact E|].
-    apply in_map_iff in Hin as (m' & X & Hm). inversion X; subst. exact Hm.
-  - left. destruct Hin as [X|[]]. destruct e; try discriminate X. inversion X; subst. reflexivity.
-Qed.
-
-(* what a watcher takes from its queue was put there by a forward: it names the chain of that watcher *)
-Definition queues_named (d : R.state) : Prop := forall c q, R.find_queue (R.queues d) c = Some q -> forall r, In r (R.q_items q) -> R.chain_of r = c.
-
-Lemma queues_named_step d o : queues_named d -> queues_named (fst (R.step d o)).
-Proof.
-  intros QN. destruct o as [r t|t|c]; cbn [R.step].
-  - destruct (R.cache_get (R.cache d) (R.key_of r)); [exact QN|]. cbn [R.key_of fst].
-    destruct (R.find_queue (R.queues d) (R.chain_of r)) as [q|] eqn:Eq; [|exact QN]. destruct (R.full q); [destruct reobs_remember_always; exact QN|].
-    cbn [fst]. intros c q' Hq' r' Hr'. cbn [R.queues] in Hq'. rewrite RP.find_set_items in Hq'. destruct (Z.eqb_spec c (R.chain_of r)) as [->|Hn].
-    + rewrite Eq in Hq'. cbn [option_map] in Hq'. inversion Hq'; subst q'. cbn [R.q_items] in Hr'. apply in_app_or in Hr' as [Hr'|[<-|[]]]; [eapply QN; eassumption|reflexivity].
-    + eapply QN; eassumption.
-  - exact QN.
-  - destruct (R.find_queue (R.queues d) c) as [q|] eqn:Eq; [|exact QN]. destruct (R.q_items q) as [|x rest] eqn:Ei; [exact QN|].
-    cbn [fst]. intros c' q' Hq' r' Hr'. cbn [R.queues] in Hq'. rewrite RP.find_set_items in Hq'. destruct (Z.eqb_spec c' c) as [->|Hn].
-    + rewrite Eq in Hq'. cbn [option_map] in Hq'. inversion Hq'; subst q'. cbn [R.q_items] in Hr'. eapply QN; [exact Eq|]. rewrite Ei. right. exact Hr'.
-    + eapply QN; eassumption.
-Qed.
-
-Lemma queues_named_final : forall ops d, queues_named d -> queues_named (R.final d ops).
-Proof. induction ops as [|o ops IH]; intros d QN; [exact QN|]. cbn [R.final]. apply IH. apply queues_named_step. exact QN. Qed.
-
-Lemma queues_named_init : queues_named (R.init node_queues).
-Proof.
-  intros c q Hq r Hr. unfold R.init, node_queues in Hq. cbn [R.queues] in Hq. rewrite watched_chains_are in Hq. cbn [map R.find_queue R.q_chain] in Hq.
-  repeat (match type of Hq with (if ?b then _ else _) = _ => destruct b end; [inversion Hq; subst q; destruct Hr|]). discriminate Hq.
-Qed.
-
-Lemma drained_is_head d c r : snd (R.step d (R.Drain c)) = R.Drained (Some r) ->
-  exists q rest, R.find_queue (R.queues d) c = Some q /\ R.q_items q = r :: rest.
-Proof.
-  cbn [R.step]. destruct (R.find_queue (R.queues d) c) as [q|]; [|discriminate]. destruct (R.q_items q) as [|x rest] eqn:E; [discriminate|].
-  cbn [snd]. intros X. inversion X; subst. exists q, rest. auto.
-Qed.
-
-(* over whole histories from the initial state: every chain message the processor handles was handed over by the environment, or
-   is in the answer of watcher c's re-observation path to a request that names chain c *)
-Theorem loop_signs_only_watched H u m outs : In (u, EProc (LocalMsg m) outs) (snd (lrun linit H)) ->
-  (exists s, In (s, LEnv (VMsg m)) (lstates linit H)) \/
-  (exists s c r, In (s, LWatch c) (lstates linit H) /\ R.chain_of r = c /\ In m (watch c r (l_now s))).
-Proof.
-  intros Hin.
-  assert (G : forall H st, queues_named (l_disp st) -> In (u, EProc (LocalMsg m) outs) (snd (lrun st H)) ->
-              (exists s, In (s, LEnv (VMsg m)) (lstates st H)) \/
-              (exists s c r, In (s, LWatch c) (lstates st H) /\ R.chain_of r = c /\ In m (watch c r (l_now s)))).
-  { clear. induction H as [|o H IH]; intros st QN Hin; [destruct Hin|]. rewrite lrun_cons in Hin. cbn [snd] in Hin. apply in_app_or in Hin as [Hin|Hin].
-    - destruct (lstep_localmsg_source _ _ _ _ _ Hin) as [->|(c & r & -> & Hd & Hm)]; [left; exists st; left; reflexivity|].
-      right. exists st, c, r. split; [left; reflexivity|]. split; [|exact Hm]. destruct (drained_is_head _ _ _ Hd) as (q & rest & Hq & Hi). eapply QN; [exact Hq|]. rewrite Hi. left. reflexivity.
-    - assert (QN1 : queues_named (l_disp (fst (lstep st o)))).
-      { destruct (lstep_wf st o) as [[_ Dw] _]. rewrite Dw. apply queues_named_final. exact QN. }
-      destruct (IH _ QN1 Hin) as [(s & Hs)|(s & c & r & Hs & X)]; [left; exists s; right; exact Hs|right; exists s, c, r; split; [right; exact Hs|exact X]]. }
-  apply G; [apply queues_named_init|exact Hin].
-Qed.
-
-(* with a contract for the watchers' re-observation paths ("forwards only final messages of its own chain", C08 / C10) and for what
-   the environment hands over, EVERY chain message the processor ever handles satisfies the contract - whatever requests arrive *)
-Corollary loop_signs_only_final (Final : Z -> msgpub -> Prop) (FinalEnv : msgpub -> Prop) H :
-  (forall c r t m, R.chain_of r = c -> In m (watch c r t) -> Final c m) ->
-  (forall s m, In (s, LEnv (VMsg m)) (lstates linit H) -> FinalEnv m) ->
-  forall u m outs, In (u, EProc (LocalMsg m) outs) (snd (lrun linit H)) -> FinalEnv m \/ exists c, Final c m.
-Proof.
-  intros Hw He u m outs Hin. destruct (loop_signs_only_watched _ _ _ _ Hin) as [(s & Hs)|(s & c & r & _ & Hc & Hm)]; [left; eapply He; exact Hs|right; exists c; eapply Hw; eassumption].
-Qed.
-
-(* the processor signs (puts an observation of its own on the wire) only while handling a chain message or an injection, or when the
-   cleanup tick re-broadcasts an observation it made earlier; handling a chain message never publishes a VAA *)
-Lemma sendobs_source p o ob : In (SendObs ob) (snd (step p o)) -> (exists m, o = LocalMsg m) \/ (exists v, o = Inject v) \/ o = Cleanup.
-Proof.
-  destruct o as [g|t|m|v|ob'|k|b|]; cbn [Processor.step]; try (intros []); eauto.
-  - unfold Processor.handle_obs. destruct (Processor.rec _ _ _); [|intros []]. destruct (negb _); [intros []|].
-    destruct (match alookup (o_hash ob') (agg p) with Some e' => _ | None => cur p end); [|intros []]. destruct (negb _); [intros []|].
-    destruct (assemble _ _ _); [|intros [X|[]]; discriminate X]. destruct (our_vaa _); [|intros []]. destruct (_ && _); [|intros []].
-    destruct l; [intros [X|[]]; discriminate X|intros [X|[X|[]]]; discriminate X].
-  - destruct (nth_error _ _); [|intros []]. unfold Processor.handle_obs. destruct (Processor.rec _ _ _); [|intros []]. destruct (negb _); [intros []|].
-    match goal with |- context [match ?x with Some g => _ | None => (_, [])  end] => destruct x end; [|intros []]. destruct (negb _); [intros []|].
-    destruct (assemble _ _ _); [|intros [X|[]]; discriminate X]. destruct (our_vaa _); [|intros []]. destruct (_ && _); [|intros []].
-    destruct l; [intros [X|[]]; discriminate X|intros [X|[X|[]]]; discriminate X].
-  - unfold Processor.handle_inbound. destruct (unmarshal b); [|intros []]. destruct (cur p); [|intros []]. destruct (_ =? _)%nat; [intros []|]. destruct (_ =? _)%nat; [intros []|].
-    destruct (proc_inbound_below_quorum _ _); [intros []|]. destruct (negb _); [intros []|]. destruct (dlookup _ _); [intros []|intros [X|[]]; discriminate X].
-Qed.
-
-Lemma handle_message_never_publishes p m x : In x (snd (step p (LocalMsg m))) -> match x with SendVAA _ | Store _ _ => False | _ => True end.
-Proof.
-  cbn [Processor.step]. unfold Processor.handle_message. destruct (cur p); [|intros []]. destruct (_ && _); [intros []|].
-  assert (K : forall v s tx c, In x (snd (Processor.broadcast_signature keccak own p v s tx c)) -> match x with SendVAA _ | Store _ _ => False | _ => True end)
-    by (intros v s tx c [<-|[<-|[]]]; exact I).
-  destruct (dlookup _ _); [|apply K]. destruct (unmarshal _); [destruct (_ <? _); [intros []|apply K]|]. destruct proc_stored_unmarshal_failure_panics; [intros [<-|[]]; exact I|apply K].
-Qed.
-
-(* (d) RECOVERY *)
-(* the watcher answers the request at the head of its queue: every message of the answer is handed to the processor *)
-Lemma lstep_watch_feeds st c q r rest : R.find_queue (R.queues (l_disp st)) c = Some q -> R.q_items q = r :: rest ->
-  pops (snd (lstep st (LWatch c))) = map LocalMsg (watch c r (l_now st)) /\
-  In (l_now st, EWatch c r (watch c r (l_now st))) (snd (lstep st (LWatch c))).
-Proof.
-  intros Hq Hi. split.
-  - rewrite lstep_pops. cbn [R.step]. rewrite Hq, Hi. reflexivity.
-  - cbn [ReobsLoop.lstep R.step]. rewrite Hq, Hi. open_feed F. right. left. reflexivity.
-Qed.
-
-(* a forwarded request is in the queue of its chain *)
-Lemma forwarded_is_queued d r now c : snd (R.step d (R.Req r now)) = R.Forward c ->
-  exists q, R.find_queue (R.queues (fst (R.step d (R.Req r now)))) c = Some q /\ In r (R.q_items q).
-Proof.
-  intros Hf. destruct (R.step d (R.Req r now)) as [d' x] eqn:Es. cbn [fst snd] in *. subst x.
-  destruct (RP.forward_to_named_chain _ _ _ _ _ Es) as (_ & _ & _ & (q & Hq & _ & Hit) & _). unfold RP.items in Hit.
-  destruct (R.find_queue (R.queues d') c) as [q'|]; [|discriminate]. cbn [option_map] in Hit. inversion Hit as [E]. exists q'. split; [reflexivity|]. rewrite E. apply in_or_app. right. left. reflexivity.
-Qed.
-End Loop2.
+End Loop3.
 
 (* ---- "somewhere along the run": concatenation *)
 From WH Require Import model.ProcSpec proofs.SystemLiveProofs.
@@ -1399,6 +774,25 @@ Proof.
 Qed.
 End Recovery.
 
+Definition pending_atb (st : lnode) (h : bytes) (c : Z) (tx : bytes) : bool :=
+  match alookup h (agg (l_proc st)) with
+  | Some e =>
+    match our_msg e, our_vaa e with
+    | Some _, Some v =>
+      negb (submitted e) && settled e && (retries e <? proc_own_retry_budget) && negb (in_db_of (l_proc st) e) && bytes_eqb (txh e) tx
+      && (echain v mod 2 ^ 32 =? c) && (first_seen e + proc_retry_after_ns <=? l_now st)
+    | _, _ => false
+    end
+  | None => false
+  end.
+Lemma pending_atb_sound st h c tx : pending_atb st h c tx = true -> pending_at st h c tx.
+Proof.
+  unfold pending_atb, pending_at. destruct (alookup h (agg (l_proc st))) as [e|]; [|discriminate]. destruct (our_msg e) as [o|] eqn:Em; [|discriminate].
+  destruct (our_vaa e) as [v|] eqn:Ev; [|discriminate]. intros Hb. repeat (apply andb_prop in Hb as [Hb ?]). exists e, o, v.
+  split; [reflexivity|]. split; [split; [exact Em|split; [exact Ev|apply negb_true_iff; assumption]]|]. split; [assumption|]. split; [apply Z.ltb_lt; assumption|].
+  split; [apply negb_true_iff; assumption|]. split; [apply bytes_eqb_eq; assumption|]. split; [apply Z.eqb_eq; assumption|apply Z.leb_le; assumption].
+Qed.
+
 (* ================================================================== the network: a request published by one node reaches its peers *)
 Section NetHop.
 Variable recover : bytes -> bytes -> option bytes.
@@ -1444,52 +838,6 @@ Proof.
   unfold dispatch. cbn [with_p2p l_disp l_now]. destruct (R.step (l_disp stj) (R.Req r (l_now stj))) as [d' x]. cbn [fst snd app]. left. reflexivity.
 Qed.
 End NetHop.
-
-(* ================================================================== boolean forms of the premises (for computed example histories) *)
-Definition is_cleanup (o : lop) : bool := match o with LCleanup => true | _ => false end.
-Definition is_purge (o : lop) : bool := match o with LPurge => true | _ => false end.
-Definition is_clock (o : lop) : bool := match o with LClock _ => true | _ => false end.
-
-Fixpoint lmonob (t0 : Z) (H : list lop) : bool :=
-  match H with
-  | [] => true
-  | LClock t :: r => (t0 <=? t) && lmonob t r
-  | _ :: r => lmonob t0 r
-  end.
-Lemma lmonob_sound : forall H t0, lmonob t0 H = true -> lmono t0 H.
-Proof.
-  induction H as [|o H IH]; intros t0 Hb; [exact I|]. destruct o; cbn [lmonob lmono] in *; try (apply IH; exact Hb).
-  apply andb_prop in Hb as [A B]. split; [apply Z.leb_le; exact A|apply IH; exact B].
-Qed.
-
-Definition pending_atb (st : lnode) (h : bytes) (c : Z) (tx : bytes) : bool :=
-  match alookup h (agg (l_proc st)) with
-  | Some e =>
-    match our_msg e, our_vaa e with
-    | Some _, Some v =>
-      negb (submitted e) && settled e && (retries e <? proc_own_retry_budget) && negb (in_db_of (l_proc st) e) && bytes_eqb (txh e) tx
-      && (echain v mod 2 ^ 32 =? c) && (first_seen e + proc_retry_after_ns <=? l_now st)
-    | _, _ => false
-    end
-  | None => false
-  end.
-Lemma pending_atb_sound st h c tx : pending_atb st h c tx = true -> pending_at st h c tx.
-Proof.
-  unfold pending_atb, pending_at. destruct (alookup h (agg (l_proc st))) as [e|]; [|discriminate]. destruct (our_msg e) as [o|] eqn:Em; [|discriminate].
-  destruct (our_vaa e) as [v|] eqn:Ev; [|discriminate]. intros Hb. repeat (apply andb_prop in Hb as [Hb ?]). exists e, o, v.
-  split; [reflexivity|]. split; [split; [exact Em|split; [exact Ev|apply negb_true_iff; assumption]]|]. split; [assumption|]. split; [apply Z.ltb_lt; assumption|].
-  split; [apply negb_true_iff; assumption|]. split; [apply bytes_eqb_eq; assumption|]. split; [apply Z.eqb_eq; assumption|apply Z.leb_le; assumption].
-Qed.
-
-Lemma forallb_states {A} (f : A -> bool) (l : list A) : forallb f l = true -> forall x, In x l -> f x = true.
-Proof. intros H. apply forallb_forall. exact H. Qed.
-
-Fixpoint allz (f : Z -> bool) (lo : Z) (n : nat) : bool := match n with O => true | S k => f lo && allz f (lo + 1) k end.
-Lemma allz_sound f : forall n lo, allz f lo n = true -> forall k, lo <= k < lo + Z.of_nat n -> f k = true.
-Proof.
-  induction n as [|n IH]; intros lo Hb k Hk; [lia|]. cbn [allz] in Hb. apply andb_prop in Hb as [A B].
-  destruct (Z.eq_dec k lo) as [->|Hn]; [exact A|]. apply (IH (lo + 1) B). lia.
-Qed.
 
 (* ================================================================== the Alephium watcher as the oracle of chain 255 (C08 contract) *)
 From WH Require Import gen.ExtractedAlphPipe model.AlphPipeline proofs.AlphPipelineRead proofs.AlphPipelineBase proofs.AlphPipelineSafety.
